@@ -150,8 +150,11 @@ pub fn hashvar(args: &Args) {
             let why = g["why"].as_str().unwrap();
             *by_why.entry(format!("{} ({})", why, rel)).or_insert(0) += 1;
             let (p, q) = (state_of_fen(pf), state_of_fen(qf));
+            // q meets the hashers in the opposite order: a key must not depend on which hasher saw the value first
+            let mut hqs: Vec<Hash> = hashers.iter().rev().map(|h| h.hash(&q)).collect();
+            hqs.reverse();
             for (i, h) in hashers.iter().enumerate() {
-                let (hp, hq) = (h.hash(&p), h.hash(&q));
+                let (hp, hq) = (h.hash(&p), hqs[i]);
                 let bad = match rel { "same" => hp != hq, "diff" => hp == hq, _ => false };
                 if bad {
                     out.ev(json!({"prop": "C08", "kind": if rel == "same" { "same position, different hash" } else { "different positions, same hash" },
